@@ -92,7 +92,7 @@ def run(tier, replay_file=None):
     compared = 0
     for hs, bc in sets:
         files = bc == "files"
-        bc = False if files else bc
+        bc = True if files else bc       # the file lists the scenario's constants, so a parsed-file cache would hand out ONE dictionary
         for hist in hs:
             obs = []
             bad = srv_replay.replay(hist, stop=3, adapter=False, base_constants=bc, observe=obs, files=files)
